@@ -174,6 +174,9 @@ var globalAssumptions = []string{
 	"single-owner slices: a backing array that has been shared as a value is not written afterwards (violations are reported as out-of-subset, never passed)",
 	"error values are abstracted to (nil-ness, errors.Is class, wrapped bit); message text, perm bits, log output are dropped",
 	"no concurrent mutation during a call",
+	"loops are cut at their invariants: the heap objects, local cells and stream ghosts a loop body may write are havocked at the loop head; the event trace, the file store, the clock readings, the last signature, the failure flags of fault mode and package-level variables are not havocked - instead every back edge carries the obligation that the body hands them back unchanged (inv.N.*.ghost.*, inv.N.*.global.*, inv.N.C15.nofail)",
+	"a callee under contract is replaced by its contract at every call: its preconditions (pre.*), its frame (frame.*) and the freshness of its results (post.*.fresh) are obligations of every property that has the unit, whatever the scope line selects",
+	"struct values written or read as a whole (EFI_TIME, EFI_GUID, the device path header) are encoded in declaration order with the declared widths, as encoding/binary does; the layout of the specification is pinned separately by ghost lemmas (verifLemmaWireLayout, verifLemmaHeaderLayout)",
 }
 
 func cmdCheck(args []string) int {
@@ -490,18 +493,21 @@ func cmdCheck(args []string) int {
 		fmt.Println(k)
 	}
 	fmt.Printf("property %s: %d obligations, %d discharged, %d known findings, %d violations, %d smoke checks, %.1fs\n", id, total, discharged, len(known), len(violations), smokeN, time.Since(t0).Seconds())
-	if broken {
-		for _, v := range violations {
-			fmt.Println("(broken run) " + v)
-		}
-		fmt.Println("BROKEN: vacuity or solver error (see above)")
-		return 2
-	}
 	if len(violations) > 0 {
+		// undecided or refuted obligations are reported as such even when the run also had a
+		// failed vacuity check or a solver error (changed code can produce both at once)
 		for _, v := range violations {
 			fmt.Println(v)
 		}
+		if broken {
+			fmt.Println("NOTE: this run also had a failed vacuity check or a solver error (see the evidence file)")
+		}
 		return 1
+	}
+	if broken {
+		// nothing failed but something passed for the wrong reason: not a pass
+		fmt.Println("BROKEN: vacuity or solver error (see above)")
+		return 2
 	}
 	return 0
 }
